@@ -225,7 +225,8 @@ def run_item(item, tier):
 
     def enabled(hist, info):
         last = hist[-1] if hist else None
-        return [op for op in alphabet if op != last]
+        from mxmc.evalfam import prune_noop_flags
+        return [op for op in prune_noop_flags(hist, alphabet, [tuple(u) for u in unc]) if op != last]
     res = bfs.explore(rh, enabled, DEPTH[tier])
     res.samples = [{"root": name, "uncached": unc, "history": h, "warm": warm} for h in res.samples[:1]]
     out = res.as_item_result()
